@@ -9,7 +9,7 @@ from encode import enc, NsTable
 from props.c06 import strip
 
 PROF = profile(tokens=True, no_textbox_in_link=True, math_markup=True, p_math=0.12, p_text=0.65, run_items=(1, 3), inlines=(1, 4), p_rpr=0.5, p_table=0.12,
-               p_textbox=0.0, p_header=0.5, p_footnotes=0.5, p_link=0.08, blocks=(1, 4))
+               p_textbox=0.0, p_header=0.6, p_double_rel=0.4, p_footnotes=0.5, p_link=0.08, blocks=(1, 4))
 RULE = ('token documents (text free of line separators); 1-3 replacement pairs whose needles are substrings of one literal text node of the '
         'original (or absent), replacements empty / multi-line (\\n, \\r\\n, trailing newline) / with markup characters / containing the next needle; '
         'the stretch is then cut arbitrarily into runs and text nodes and sprinkled with non-content markup (2-10 rewrites) before '
@@ -17,7 +17,8 @@ RULE = ('token documents (text free of line separators); 1-3 replacement pairs w
         'per paragraph (line ends as breaks), other parts / images / non-content members unchanged, run formatting preserved (html on); '
         'correspondence: replace_root_text on the merged part, Lean model vs implementation; non-trivial = needle present and >= 3 rewrites; '
         'distinct by hash of (archive, pairs)')
-REPL = ['', 'X', 'new text', 'l1\nl2', 'a\n', '\nb', 'l1\r\nl2', 'x\n\ny', '<&>', 'a & b', '&amp;', 'q"q', 'é', 'l1\rl2']
+REPL = ['', 'X', 'new text', 'l1\nl2', 'a\n', '\nb', 'l1\r\nl2', 'x\n\ny', '<&>', 'a & b', '&amp;', 'q"q', 'é', 'l1\rl2',
+        'C:\\temp\\new', 'DOMAIN\\user', 'a\\1b', '\\g<0>', '\\\\', 'tab\\tnot', '\\d+', '$1 {0} %s']        # a replacement is a literal string, not a template
 ESC = lambda t: t.replace('&', '&amp;').replace('<', '&lt;').replace('>', '&gt;')
 
 
@@ -33,6 +34,15 @@ def pick_pairs(rng, data):
     ts = [t.text for p in cps if p in parts for t in parts[p].iter() if src.ptag(t) == 'w:t' and t.text and src.TOKEN.search(t.text)
           and not any(src.ptag(a) == 'w:hyperlink' for a in t.iterancestors())]
     pairs = []
+    paths = [p for t, p in src.content_parts(data) if t != 'comments']
+    twice = [p for p in set(paths) if paths.count(p) > 1 and p in parts]
+    if twice and rng.random() < 0.6:
+        # a part that is the target of two relationships must still be rewritten once: a replacement containing its own needle shows a second pass
+        tt = [t.text for t in parts[twice[0]].iter() if src.ptag(t) == 'w:t' and t.text and src.TOKEN.search(t.text) and not any(src.ptag(a) == 'w:hyperlink' for a in t.iterancestors())]
+        if tt:
+            s_ = rng.choice(tt); m = src.TOKEN.search(s_)
+            old = s_[rng.randint(0, m.start()):rng.randint(m.end(), len(s_))]
+            return [(old, 'tom' + old)]
     if ts and rng.random() < 0.3:
         # a needle that occurs in every text node (several hits in one run, separated by tabs / breaks)
         old = rng.choice(['»', '«', '»x'])
@@ -44,6 +54,7 @@ def pick_pairs(rng, data):
             old = s[a:b]
         else: old = '«absent%d»' % rng.randrange(100)
         new = rng.choice(REPL)
+        if rng.random() < 0.15: new = 'tom' + old + rng.choice(['', ' again'])      # a replacement that contains its own needle: applied once, not until a fixed point
         if any(o in new for o, _ in pairs): new = 'Y'
         pairs.append((old, new))
     # needles must not be found inside an earlier replacement or overlap each other's tokens
